@@ -171,7 +171,7 @@ impl ValueMetadata {
     pub fn with_expiration(expires_in: Duration) -> Self {
         let now = Instant::now();
         ValueMetadata {
-            expires_at: Some(Self::deadline_after(now, expires_in)),
+            expires_at: Some(Self::deadline_after(crate::storage::clock::now(), expires_in)),
             created_at: now,
             last_accessed: now,
             encoding: StringEncoding::Raw,
@@ -181,7 +181,7 @@ impl ValueMetadata {
     /// Check if this value has expired
     pub fn is_expired(&self) -> bool {
         self.expires_at
-            .map(|expires_at| Instant::now() > expires_at)
+            .map(|expires_at| crate::storage::clock::now() > expires_at)
             .unwrap_or(false)
     }
     
@@ -192,7 +192,7 @@ impl ValueMetadata {
     
     /// Set expiration time
     pub fn set_expiration(&mut self, expires_in: Duration) {
-        self.expires_at = Some(Self::deadline_after(Instant::now(), expires_in));
+        self.expires_at = Some(Self::deadline_after(crate::storage::clock::now(), expires_in));
     }
     
     /// Clear expiration
